@@ -1,7 +1,7 @@
 ----------------------------- MODULE Trace_Expr -----------------------------
 (* Validates recorded #expr evaluations of the real code against Expr.       *)
 (* TRACE_FILE: {"events": [{"toks": [...], "obs": {"kind": "val"|"err"|"exc",*)
-(*              "n": .., "d": .., "close": bool, "syntax": bool}}, ...]}     *)
+(*              "n": .., "d": .., "close": bool}}              , ...]}     *)
 (* obs.n/obs.d is the fraction with small denominator nearest to the number  *)
 (* the code printed, close = it is within 1e-9 of what was printed.          *)
 (* One event is consumed per step; mismatches are collected, not blocking.   *)
@@ -25,9 +25,9 @@ Judge(e) ==
   ELSE IF x.kind = "exc" THEN "drift"
   ELSE IF x.kind = "val" THEN
        (IF e.obs.kind # "val"
-        \* an inexactly known operand may legitimately be a zero divisor / out of a
-        \* domain: an arithmetic error is then no contradiction, a syntax error is
-        THEN (IF x.ex \/ e.obs.syntax THEN "bad" ELSE "drift")
+        \* a roughly known operand may legitimately be a zero divisor / outside a
+        \* domain / overflow: an error is then no contradiction
+        THEN (IF x.rk THEN "drift" ELSE "bad")
         ELSE IF x.ex /\ ~(e.obs.close /\ e.obs.n = x.n /\ e.obs.d = x.d) THEN "bad"
         ELSE "ok")
   ELSE (IF e.obs.kind = "val" THEN "drift" ELSE "ok")
